@@ -137,7 +137,7 @@ def write_job_dir(job, jobdir):
         with open(dumper, 'w') as fh:
             fh.write(DUMPER % sys.executable)
         os.chmod(dumper, 0o755)
-        for n in ('GLib-2.0.gir', 'GObject-2.0.gir'):
+        for n in ('GLib-2.0.gir', 'GObject-2.0.gir', 'Gio-2.0.gir'):
             dst = os.path.join(jobdir, 'deps', n)
             shutil.copyfile(os.path.join(HERE, 'fixtures', n), dst)
             os.utime(dst, (FAR_PAST, FAR_PAST))
@@ -445,13 +445,13 @@ def sibling_order_observation(data):
     if ns is None:
         return None
     groups = sorted_groups = 0
-    names = [(c.tag == core_ns + 'alias', c.get('name')) for c in ns]
+    names = [(c.tag == core_ns + 'alias', c.get('name') or '') for c in ns]
     rest = [n for a, n in names if not a]
     groups += 1
     sorted_groups += rest == sorted(rest)
     for parent in ns:
         for tag in ('constructor', 'method', 'function', 'virtual-method', 'property'):
-            ns_ = [c.get('name') for c in parent if c.tag == core_ns + tag]
+            ns_ = [c.get('name') or '' for c in parent if c.tag == core_ns + tag]
             if len(ns_) > 1:
                 groups += 1
                 sorted_groups += ns_ == sorted(ns_)
